@@ -78,7 +78,7 @@ def shards(tier, seed):
     else:
         for i in range(len(ALPHA)):
             for j in range(0, len(ALPHA), 5):
-                out.append({"part": "a", "first": i, "second": [j, j + 5], "len": 6, "allchunk": 6, "seed": seed})
+                out.append({"part": "a", "first": i, "second": [j, j + 5], "len": 6, "allchunk": 5, "seed": seed})
         nm = len(macro_symbols())
         for i in range(nm):
             out.append({"part": "b", "first": [i, i + 1], "len": 4, "allchunk": 12, "seed": seed})
